@@ -22,6 +22,71 @@ type pathEnd struct {
 
 type opaqueCall struct{}
 
+// SymPtr is a pointer to one of several cells selected by mutually exclusive
+// guards; it is only created for an IndexAddr whose single use is a load.
+type SymPtr struct {
+	cells []*Cell
+	conds []*Term
+}
+
+// iteVal merges two values of the same shape under a condition.
+func (in *Interp) iteVal(c *Term, a, b Value) (Value, bool) {
+	switch x := a.(type) {
+	case *Term:
+		y, ok := b.(*Term)
+		if !ok || x.sort != y.sort {
+			return nil, false
+		}
+		return in.tt.Ite(c, x, y), true
+	case Str:
+		y, ok := b.(Str)
+		if !ok || x.Len() != y.Len() {
+			return nil, false
+		}
+		if x.sym == nil && y.sym == nil && x.s == y.s {
+			return x, true
+		}
+		r := make([]*Term, x.Len())
+		for i := range r {
+			r[i] = in.tt.Ite(c, in.strByte(x, i), in.strByte(y, i))
+		}
+		return in.mkStr(r), true
+	case StructV:
+		y, ok := b.(StructV)
+		if !ok || len(x.f) != len(y.f) {
+			return nil, false
+		}
+		f := make([]Value, len(x.f))
+		for i := range f {
+			v, ok := in.iteVal(c, x.f[i], y.f[i])
+			if !ok {
+				return nil, false
+			}
+			f[i] = v
+		}
+		return StructV{f}, true
+	case Ptr:
+		y, ok := b.(Ptr)
+		if ok && x.c == y.c {
+			return x, true
+		}
+		return nil, false
+	case SliceV:
+		y, ok := b.(SliceV)
+		if ok && x == y {
+			return x, true
+		}
+		return nil, false
+	case Iface:
+		y, ok := b.(Iface)
+		if ok && x.t == nil && y.t == nil {
+			return x, true
+		}
+		return nil, false
+	}
+	return nil, false
+}
+
 var opaqueT = types.NewNamed(types.NewTypeName(token.NoPos, nil, "symgo.opaque", nil), types.NewStruct(nil, nil), nil)
 
 type blockSignal struct{}
@@ -386,8 +451,12 @@ func (in *Interp) callFn(g *Goroutine, fn *ssa.Function, args []Value, fv []Valu
 		name = o.String()
 	}
 	if intr, ok := intrinsics[name]; ok {
+		v, pushed := in.runIntrinsic(intr, &callCtx{g: g, fn: fn, args: args, retTo: retTo})
+		if pushed {
+			return nil, false
+		}
 		in.stubsHit[name]++
-		return intr(in, &callCtx{g: g, fn: fn, args: args, retTo: retTo}), true
+		return v, true
 	}
 	if fn.Pkg != nil && len(fn.Name()) > 1 && fn.Name()[0] == 'v' {
 		if intr, ok := rtIntrinsics[fn.Name()]; ok && isRT(fn, in.prog) {
@@ -421,6 +490,21 @@ func (in *Interp) callFn(g *Goroutine, fn *ssa.Function, args []Value, fv []Valu
 	}
 	in.pushFrame(g, fn, args, fv, retTo)
 	return nil, false
+}
+
+// runIntrinsic calls an intrinsic; an intrinsic may decline by pushing the real
+// function's frame and panicking with framePushed.
+func (in *Interp) runIntrinsic(intr intrinsic, c *callCtx) (v Value, pushed bool) {
+	defer func() {
+		if r := recover(); r != nil {
+			if _, ok := r.(framePushed); ok {
+				pushed = true
+				return
+			}
+			panic(r)
+		}
+	}()
+	return intr(in, c), false
 }
 
 // callSync runs a function value to completion on goroutine g and returns its result.
@@ -918,6 +1002,21 @@ func (in *Interp) concretizeIndex(g *Goroutine, t *Term, n int, signed bool, wha
 	return k
 }
 
+// symStrIndex returns s[idx] for a symbolic index as an ite chain (after the bounds fork).
+func (in *Interp) symStrIndex(g *Goroutine, s Str, idx *Term) Value {
+	w := idx.sort.W
+	oob := in.tt.Not(in.tt.Cmp(OpUlt, idx, in.tt.Const(w, uint64(s.Len()))))
+	if in.branch(oob) {
+		in.goPanic(g, "bounds", fmt.Sprintf("index out of range with length %d (string)", s.Len()), nil)
+		return in.tt.Const(8, 0)
+	}
+	acc := in.strByte(s, s.Len()-1)
+	for i := s.Len() - 2; i >= 0; i-- {
+		acc = in.tt.Ite(in.tt.Eq(idx, in.tt.Const(w, uint64(i))), in.strByte(s, i), acc)
+	}
+	return acc
+}
+
 func (in *Interp) execIndex(g *Goroutine, fr *Frame, x *ssa.Index) {
 	base := in.get(fr, x.X)
 	idx := in.get(fr, x.Index).(*Term)
@@ -930,6 +1029,10 @@ func (in *Interp) execIndex(g *Goroutine, fr *Frame, x *ssa.Index) {
 		}
 		in.set(fr, x, b.e[i])
 	case Str:
+		if !idx.IsConst() && b.Len() > 1 {
+			in.set(fr, x, in.symStrIndex(g, b, idx))
+			return
+		}
 		i := in.concretizeIndex(g, idx, b.Len(), signed, "string")
 		if i < 0 {
 			return
@@ -940,12 +1043,37 @@ func (in *Interp) execIndex(g *Goroutine, fr *Frame, x *ssa.Index) {
 	}
 }
 
+// onlyLoaded reports whether the address computed by x is used by exactly one load.
+func (in *Interp) onlyLoaded(x *ssa.IndexAddr) bool {
+	refs := x.Referrers()
+	if refs == nil || len(*refs) != 1 {
+		return false
+	}
+	u, ok := (*refs)[0].(*ssa.UnOp)
+	return ok && u.Op == token.MUL && u.Block() == x.Block()
+}
+
 func (in *Interp) execIndexAddr(g *Goroutine, fr *Frame, x *ssa.IndexAddr) {
 	base := in.get(fr, x.X)
 	idx := in.get(fr, x.Index).(*Term)
 	_, signed, _ := isInt(x.Index.Type())
 	switch b := base.(type) {
 	case SliceV:
+		if !idx.IsConst() && b.len > 1 && in.onlyLoaded(x) {
+			w := idx.sort.W
+			oob := in.tt.Not(in.tt.Cmp(OpUlt, idx, in.tt.Const(w, uint64(b.len))))
+			if in.branch(oob) {
+				in.goPanic(g, "bounds", fmt.Sprintf("index out of range with length %d (slice %s)", b.len, x.X.Type()), nil)
+				return
+			}
+			sp := SymPtr{}
+			for i := 0; i < b.len; i++ {
+				sp.cells = append(sp.cells, in.elem(b.arr, b.off+i))
+				sp.conds = append(sp.conds, in.tt.Eq(idx, in.tt.Const(w, uint64(i))))
+			}
+			in.set(fr, x, sp)
+			return
+		}
 		i := in.concretizeIndex(g, idx, b.len, signed, "slice "+x.X.Type().String())
 		if i < 0 {
 			return
@@ -1163,6 +1291,26 @@ func (in *Interp) unop(g *Goroutine, fr *Frame, x *ssa.UnOp) Value {
 	tt := in.tt
 	switch x.Op {
 	case token.MUL: // load
+		if sp, ok := v.(SymPtr); ok {
+			var acc Value
+			okAll := true
+			for i := len(sp.cells) - 1; i >= 0; i-- {
+				val := in.load(sp.cells[i])
+				if acc == nil {
+					acc = val
+					continue
+				}
+				acc, okAll = in.iteVal(sp.conds[i], val, acc)
+				if !okAll {
+					break
+				}
+			}
+			if okAll {
+				return acc
+			}
+			k := in.choose(sp.conds)
+			return in.load(sp.cells[k])
+		}
 		p := v.(Ptr)
 		if p.c == nil {
 			in.goPanic(g, "nil", "nil pointer dereference (load "+x.X.Type().String()+")", nil)
